@@ -8,6 +8,7 @@ from ..util import (is_name, calls_in, callee_qual, deref, ancestors, evaluator_
                     handler_outcomes, completes_normally, handler_covers, in_handler_of, raised_class, is_subclass,
                     cls_name, class_names_of_handler)
 from .common import option_usage
+from ..pattern import match, matches
 
 info('C12',
      explanation='Static decision of: every deletion primitive of Delete._del_one (del dest[arg], delattr, the '
@@ -113,35 +114,51 @@ def parent_miss(ctx):
            % [src(h.ast.type) for h in hs if h.ast.type is not None])
     for h in hs:
         out = handler_outcomes(cfg, h)
-        ctx.ob(set(out) == {'raise-bare', 'normal'}, u, 'a missing parent re-raises unless ignored', 'outcomes %s' % sorted(out))
+        ctx.ob(set(out) <= {'raise-bare', 'raise-var', 'normal'} and 'normal' in out and len(out) == 2, u,
+               'a missing parent re-raises unless ignored', 'outcomes %s' % sorted(out))
         for r in [x for x in ast.walk(h.ast) if isinstance(x, ast.Raise)]:
             g = [a for a in ancestors(r) if isinstance(a, ast.If)]
             ok = bool(g) and norm(g[0].test) == 'not self.ignore_missing'
-            ctx.ob(ok and r.exc is None, u, 'the access error propagates unchanged exactly when ignore_missing is off')
+            ctx.ob(ok and (r.exc is None or is_name(r.exc, h.ast.name)), u, 'the access error propagates unchanged exactly when ignore_missing is off')
     tr = [n for n in ast.walk(u.node) if isinstance(n, ast.Try)]
     ctx.require(len(tr) == 1, 'Delete.glomit: try not found')
     t = tr[0]
     dels = [c for c in calls_in(u) if callee_qual(p, u, c) == 'mutation._apply_for_each']
     ok = len(dels) == 1 and any(dels[0] in ast.walk(s) for s in t.orelse)
     ctx.ob(ok, u, 'the deletion runs only when the parent was fetched (try-else): %s' % [norm(d) for d in dels])
+    roles = {}
+    for n in u.own_nodes():
+        if isinstance(n, ast.Assign):
+            b = match(n, '$op, $arg, $path = self.op, self.arg, self.path')
+            if b:
+                roles.update(b)
+    split = None
+    for n in ast.walk(u.node):
+        if isinstance(n, ast.If) and matches(n.test, 'self.path.startswith(S)') and len(n.body) == 2 and len(n.orelse) == 2:
+            got = {}
+            for st in n.body:
+                b1 = match(st, '$dt = scope[UP]')
+                b2 = match(st, '$dp = self.path.from_t()')
+                if b1:
+                    got['dt'] = b1['dt']
+                if b2:
+                    got['dp'] = b2['dp']
+            if len(got) == 2 and any(matches(st, '%s = %s' % (got['dt'], u.params[1])) for st in n.orelse) \
+                    and any(matches(st, '%s = self.path' % got['dp']) for st in n.orelse):
+                split = got
     if dels:
         d = dels[0]
         lam = d.args[0]
         ok = isinstance(lam, ast.Lambda) and isinstance(lam.body, ast.Call) and isinstance(lam.body.func, ast.Attribute) \
             and lam.body.func.attr == '_del_one' and [a.id if isinstance(a, ast.Name) else None for a in lam.body.args] == \
-            [lam.args.args[0].arg, 'op', 'arg', 'scope']
+            [lam.args.args[0].arg, roles.get('op'), roles.get('arg'), u.params[2]]
         ctx.ob(ok, u, 'each match is deleted with (dest, op, arg, scope): %s' % norm(lam))
         st = stmt_of(evs[0])
         dv = st.targets[0].id if isinstance(st, ast.Assign) and is_name(st.targets[0]) else None
-        ctx.ob(is_name(d.args[2], dv) and is_name(d.args[1], 'path'), u, 'the fetched parent(s) are what is deleted from')
-    ctx.ob(is_name(evs[0].args[0], 'dest_target') and is_name(evs[0].args[1], 'dest_path'), u, 'the parent is fetched through the parent path')
-    iff = [n for n in u.node.body if isinstance(n, ast.If) and 'startswith(S)' in norm(n.test)]
-    ok = len(iff) == 1
-    if ok:
-        b = {norm(s) for s in iff[0].body}
-        e = {norm(s) for s in iff[0].orelse}
-        ok = b == {'dest_target = scope[UP]', 'dest_path = self.path.from_t()'} and e == {'dest_target = target', 'dest_path = self.path'}
-    ctx.ob(ok, u, 'T-rooted destinations start at the target, S-rooted ones at the enclosing scope')
+        ctx.ob(is_name(d.args[2], dv) and is_name(d.args[1], roles.get('path')), u, 'the fetched parent(s) are what is deleted from')
+    ctx.ob(split is not None and is_name(evs[0].args[0], split['dt']) and is_name(evs[0].args[1], split['dp']), u,
+           'the parent is fetched through the parent path')
+    ctx.ob(split is not None, u, 'T-rooted destinations start at the target, S-rooted ones at the enclosing scope')
     ctx.floor(8)
 
 
